@@ -136,6 +136,13 @@ pub fn gen(ctx: &Ctx, rng: &mut Rng, out: &mut Vec<String>) {
             }
         }
     }
+    // every axis length 2..=260 (thorough 600) once, projected down to two chromosomes and to one less than it has, with all mass in
+    // the last cell / spread evenly: sizes on and around powers of two, table ends, cache capacities
+    for n in 2..=(if t { 600usize } else { 260 }) {
+        let mut last = vec![0.0; n]; last[n - 1] = 5.0;
+        out.push(format!("pn.view\t{n}\t{}\tN\tN\tS3\tN\t0\t0", bits(&last)));
+        if n % 4 == 1 || t { out.push(format!("pn.view\t{n}\t{}\tN\tN\tS{}\tN\t0\t1", bits(&vec![1.0; n]), n - 1)); }
+    }
     // Input::new: path argument vs piped stdin vs SFS_ALLOW_STDIN
     for cmd in ["view", "fold", "stat"] { for p in ["0", "1"] { for e in ["0", "1"] { out.push(format!("pn.input\t{cmd}\t{p}\t{e}")); } } }
     // (b) empty and very short inputs, to all four subcommands
@@ -195,7 +202,7 @@ pub fn gen(ctx: &Ctx, rng: &mut Rng, out: &mut Vec<String>) {
         out.push(format!("pn.any\t{cmd}\t{args}\t{}", hex(&ok33)));
     }
     // (e) create: contradictory / odd sample lists, projections and thread counts on a valid call set
-    let cs = vcf::CallSet { cols: vec!["s0".into(), "s1".into(), "s2".into()], extras: false,
+    let cs = vcf::CallSet { cols: vec!["s0".into(), "s1".into(), "s2".into()], extras: false, wide: 0,
         recs: vec![vcf::Record { contig: "1".into(), pos: 5, gts: vec!["0/1".into(), "1/1".into(), "./.".into()], corrupt: None }, vcf::Record { contig: "1".into(), pos: 9, gts: vec!["0|0".into(), "0/1".into(), "1/1".into()], corrupt: None }] };
     let vtext = vcf::vcf_text(&cs);
     for args in ["-s s0=A,s1=B,s0=B", "-s s0=A,s1=B,s2=C,s0=C,s1=C", "-s s0,s0,s0", "-s s0=A,s0", "-s =A", "-s s0=", "-s ,", "-s s9", "-s s0=A=B", "-s", "-S /nonexistent/file", "-p 1", "-p 0", "-p 9223372036854775808",
@@ -209,7 +216,7 @@ pub fn gen(ctx: &Ctx, rng: &mut Rng, out: &mut Vec<String>) {
     let text_b = text_spec(&[7], &[5., 1., 0., 2., 0., 1., 9.]);
     let npy_a = crate::npy::write_f8(&[2, 3, 2], &(0..12).map(|x| x as f64).collect::<Vec<_>>());
     let npy_b = crate::npy::write_f8(&[5], &[1., 2., 3., 4., 5.]);
-    let mut big_cs = vcf::CallSet { cols: (0..4).map(|i| format!("s{i}")).collect(), extras: true, recs: vec![] };
+    let mut big_cs = vcf::CallSet { cols: (0..4).map(|i| format!("s{i}")).collect(), extras: true, wide: 0, recs: vec![] };
     for r in 0..12 { big_cs.recs.push(vcf::Record { contig: if r < 6 { "chr1".into() } else { "chr2".into() }, pos: 100 + r, corrupt: None,
         gts: (0..4).map(|c| ["0/0", "0/1", "1|1", "./.", "1/0"][(r + c) % 5].to_string()).collect() }); }
     let vcf_a = vcf::vcf_text(&big_cs);
